@@ -146,6 +146,16 @@ def doOp (d : D) (ts : List String) : Option (D × String × List (Nat × String
     let w := (← w.toNat?) % nW
     if busy d w || d.modePark.isSome then refused
     else some (d, "started", [(w, "a,b")])
+  | ["seek", w] => do
+    let w := (← w.toNat?) % nW
+    if busy d w || (d.s.ws w).fd.isNone then refused else some (d, "started", [(w, "ok")])
+  | ["trunc", w] => do
+    let w := (← w.toNat?) % nW
+    match (d.s.ws w).fd with
+    | some fd =>
+      if busy d w || !fd.write then refused
+      else some ({ d with s := setWorker d.s w { (d.s.ws w) with fd := some { fd with st := .dirty } } }, "started", [(w, "ok")])   -- Truncate marks the descriptor dirty; same content
+    | none => refused
   | ["size", w] => do
     let w := (← w.toNat?) % nW
     if busy d w || (d.s.ws w).fd.isNone then refused else some (d, "started", [(w, "4")])
